@@ -6,8 +6,10 @@ import (
 	"encoding/base64"
 	"encoding/hex"
 	"fmt"
+	verifclock "github.com/ucan-wg/go-ucan/verifshim/clock"
 	"io"
 	"sync"
+	"time"
 
 	"github.com/ipfs/go-cid"
 
@@ -712,13 +714,14 @@ func c19TokenSub() *engine.Sub {
 					if cs.AsStr {
 						opt = delegation.WithEncryptedMetaString("secret", string(pt), c19Key)
 					}
-					tok, err = delegation.New(k.DID, otherPrincipal(k, 1), "/a", nil, opt, delegation.WithNonce(fixedNonce))
+					// (the token is not active yet now, and expired three hours from now: reading metadata is not an authorization check)
+					tok, err = delegation.New(k.DID, otherPrincipal(k, 1), "/a", nil, opt, delegation.WithNonce(fixedNonce), delegation.WithNotBeforeIn(time.Hour), delegation.WithExpirationIn(2*time.Hour))
 				} else {
 					opt := invocation.WithEncryptedMetaBytes("secret", pt, c19Key)
 					if cs.AsStr {
 						opt = invocation.WithEncryptedMetaString("secret", string(pt), c19Key)
 					}
-					tok, err = invocation.New(k.DID, otherPrincipal(k, 1), "/a", []cid.Cid{cidPool[0]}, opt, invocation.WithNonce(fixedNonce))
+					tok, err = invocation.New(k.DID, otherPrincipal(k, 1), "/a", []cid.Cid{cidPool[0]}, opt, invocation.WithNonce(fixedNonce), invocation.WithExpirationIn(time.Hour))
 				}
 				if err != nil {
 					ctx.Failf(cs, "token/constructor-fails", "constructor with encrypted metadata fails: %v", err)
@@ -774,6 +777,32 @@ func c19TokenSub() *engine.Sub {
 				}
 				if _, err := ro.GetEncryptedBytes("secret", bytes.Repeat([]byte{0xff}, 32)); err == nil {
 					ctx.Failf(cs, "token/wrong-key-returns-data", "a different key decrypts metadata of an unsealed token")
+				}
+				// E7: the same read while the (controlled) clock stands before the token's window, inside it and long after it -
+				// through the decoded token's Meta() and the built token's
+				for _, off := range []time.Duration{-400 * 24 * time.Hour, 90 * time.Minute, 3 * time.Hour, 100 * 365 * 24 * time.Hour} {
+					at := time.Now().Add(off)
+					restore := verifclock.InstallLocal(func() time.Time { return at })
+					for which, t := range []any{dec, tok} {
+						var ro2 meta.ReadOnly
+						switch t := t.(type) {
+						case *delegation.Token:
+							ro2 = t.Meta()
+						case *invocation.Token:
+							ro2 = t.Meta()
+						}
+						got2, err2 := ro2.GetEncryptedBytes("secret", c19Key)
+						if cs.AsStr {
+							var s2 string
+							s2, err2 = ro2.GetEncryptedString("secret", c19Key)
+							got2 = []byte(s2)
+						}
+						ctx.Eval(1)
+						if err2 != nil || !bytes.Equal(got2, pt) {
+							ctx.Failf(cs, "token/roundtrip-depends-on-the-clock", "the plaintext does not come back from the %s token when the clock stands %v from now (the token is valid from +1h / until +1h or +2h): %v", [2]string{"decoded", "built"}[which], off, err2)
+						}
+					}
+					restore()
 				}
 				// the same token built again - same issuer, same pinned token nonce, same metadata key, same encryption
 				// key, same plaintext; options in either order - stores another ciphertext every time
